@@ -1,10 +1,10 @@
 # C01 Build -> save -> load returns the same content (DESIGN.md section 4, C01)
 from .common import *
 ID = 'C01'
-HARNESSES = ['h_c01.cpp']
+HARNESSES = ['h_c01.cpp', 'h_hist.cpp']
 LEVEL = 'model_checking'
 BUDGET = {'quick': 280, 'thorough': 3000}
-BOUNDS = {'quick': 'shapes P,C<=2 S<=2 F<=2; 3 construction orders; one extra parameter (int/float/string, 0..3 dims of extent<=3, name<=4 chars, description<=3 chars); all floats, 16-bit ints, characters, lock flags symbolic; parameter-section length swept through all 512 residues modulo the block size',
+BOUNDS = {'quick': 'shapes P,C<=2 S<=2 F<=2; 3 construction orders; one extra parameter (int/float/string, 0..3 dims of extent<=3, name<=4 chars, description<=3 chars); all floats, 16-bit ints, characters, lock flags symbolic; parameter-section length swept through all 512 residues modulo the block size; all histories of 2 operations from the populated start state followed by save -> load -> full comparison',
           'thorough': 'shapes P,C<=3 S<=3 F<=3; 3 construction orders; extra parameter int/float/string with 0..7 dims, descriptions 0/1/17 chars, symbolic point/channel names; all payload symbolic'}
 OUTSIDE = 'more than 3 points/channels/sub-frames/frames; strings longer than 17 chars; BYTE-typed parameters (no public setter); integer values outside int16 (C17)'
 ASSUMPTIONS = ['POINT:RATE=100 and ANALOG:RATE=100*S are concrete (they fix loop trip counts)', 'names are printable non-space ASCII; descriptions printable ASCII']
@@ -58,6 +58,11 @@ def jobs(tier, seed):
     for L in range(0, 520): J(P=1, C=0, S=1, F=1, order=L % 3, pad=L)
     # POINT:SCALE set by the user to any float (it is content like any other parameter)
     for order in (0, 1, 2): J(P=2, C=1, S=1, F=1, order=order, point_scale=1)
+    # construction histories: every history of 2 operations (56-operation alphabet of the history harness) from the declared and
+    # the populated start state, then save -> load -> full comparison
+    from . import histcommon
+    for j in histcommon.hist_jobs(tier, seed, finish=3):
+        if j['cfg']['start'] in ((2,) if tier == 'quick' else (0, 1, 2, 3)): out.append(j)
     # symbolic point/channel names
     J(P=2, C=2, S=1, F=1, order=0, symnames=1)
     if tier == 'thorough':
@@ -80,7 +85,16 @@ def obligations(sec, job, st):
     obls += compare(inp, post_d, 'data')
     return obls
 
+def hist_final(sec, st, tag):
+    if tag: return []          # histories with gap frames / empty frames / a rate changed while frames exist (the stored sub-frame count then contradicts the rate ratio on reload): recorded findings (C05), outside this claim
+    pre, post = sec['pre'], sec['post']
+    skip = ('prm.datastart',)
+    return compare(pre, post, 'history/pre-vs-post', upper_labels=UPPER, skip_labels=skip)
+
 def run_job(engine, job):
+    if job.get('name') == 'hist':
+        from . import histcommon
+        return histcommon.explore(engine, job, ID, lambda *a: [], final=hist_final)
     return std_run(engine, job, obligations, 'c01.end', ID, 'roundtrip')
 
 native_confirm = native_confirm_by(obligations)
